@@ -53,14 +53,14 @@ Section Transport.
                           end
           else mkT (pipe s) (exited s) None (result s)
     | PGet =>
-        if negb (exited s) then s else     (* is_alive(): nothing is decided yet *)
+        if negb (exited s) && result_only_when_dead fl then s else     (* is_alive(): nothing is decided yet *)
         match result s with
         | Some _ => s
         | None =>
             let r0 := if result_from_early fl then early s else None in
             let r1 := if result_drains fl then match rev (pipe s) with m :: _ => Some m | [] => r0 end else r0 in
             let rest := if result_drains fl then [] else pipe s in
-            mkT rest true (early s)
+            mkT rest (exited s) (early s)
                 (match r1 with
                  | Some m => Some (Report m)
                  | None => if result_default fl then Some NoReport else None
